@@ -56,7 +56,7 @@ R_KM = 6371
 POSITION_TYPES = {
     1: (168, 61, 28, 89, 27, 600000), 2: (168, 61, 28, 89, 27, 600000), 3: (168, 61, 28, 89, 27, 600000),
     4: (168, 79, 28, 107, 27, 600000), 11: (168, 79, 28, 107, 27, 600000), 9: (168, 61, 28, 89, 27, 600000),
-    17: (80, 40, 18, 58, 17, 600), 18: (168, 57, 28, 85, 27, 600000), 19: (312, 57, 28, 85, 27, 600000),
+    17: (80, 40, 18, 58, 17, 10), 18: (168, 57, 28, 85, 27, 600000), 19: (312, 57, 28, 85, 27, 600000),
     21: (272, 164, 28, 192, 27, 600000), 27: (96, 44, 18, 62, 17, 600),
 }
 NOMINAL = {5: 424, 6: 168, 7: 72, 8: 168, 10: 72, 12: 168, 13: 72, 14: 168, 15: 88, 16: 96, 20: 72, 22: 168, 23: 160, 24: 160,
@@ -209,6 +209,59 @@ def cls_name(f):
 
 # ------------------------------------------------------------------------------------------------------------------
 # the implementation, through its public API
+class Synth:
+    """A message-like object of an arbitrary attribute shape (as the mock messages of tests/test_filters.py): used only for
+    the shapes no decoder output has (lat a number while lon is None, a coordinate attribute missing, a str coordinate),
+    which the model and the theorems cover as well."""
+
+    def __init__(self, msg_type, attrs):
+        self._attrs = dict(attrs)
+        self.msg_type = msg_type
+        for k, v in attrs.items():
+            setattr(self, k, v)
+
+    def asdict(self):
+        d = {'msg_type': self.msg_type}
+        d.update(self._attrs)
+        return d
+
+    def decode(self):
+        return self
+
+    def __repr__(self):
+        return f'Synth({self.asdict()!r})'
+
+
+def synth_json(o):
+    return [o.msg_type, {k: (v if v is None else 's:' + v if isinstance(v, str) else num(v)) for k, v in o._attrs.items()}]
+
+
+def synth_from_json(j):
+    return Synth(j[0], {k: (v if v is None else (v[2:] if isinstance(v, str) and v.startswith('s:') else unnum(v)))
+                        for k, v in j[1].items()})
+
+
+def src_json(src):
+    """The stream source as it goes into a replay file."""
+    if src and isinstance(src[0], Synth):
+        return {'synthetic': [synth_json(o) for o in src]}
+    return {'lines': [ln.decode('latin-1') for ln in src]}
+
+
+def src_text(src):
+    if src and isinstance(src[0], Synth):
+        return repr(list(src))
+    return 'IterMessages(' + repr([ln.decode('latin-1') for ln in src]) + ')'
+
+
+def make_stream(src):
+    """IterMessages over sentence lines, or the synthetic objects themselves (each is its own 'sentence')."""
+    import pyais
+    if src and isinstance(src[0], Synth):
+        return iter(src)
+    return pyais.IterMessages(src)
+
+
 def run_impl(fs, lines):
     """list(FilterChain([...]).filter(IterMessages(lines))) observed message by message.
     -> ('RAISE', name) | (yielded messages, 'end' | exception class name)"""
@@ -220,7 +273,7 @@ def run_impl(fs, lines):
         return 'RAISE', type(e).__name__
     out, term = [], 'end'
     try:
-        for m in chain.filter(pyais.IterMessages(lines)):
+        for m in chain.filter(make_stream(lines)):
             out.append(m)
     except RecursionError:
         raise
@@ -232,9 +285,8 @@ def run_impl(fs, lines):
 def decode_stream(lines):
     """What the chain's generator expression will see: the sentences of IterMessages, each decoded (or the class of the
     exception its decode() raises)."""
-    import pyais
     items = []
-    for s in pyais.IterMessages(lines):
+    for s in make_stream(lines):
         try:
             items.append(s.decode())
         except Exception as e:
@@ -409,7 +461,7 @@ def check_haversine(rep, ref, p, kind, origin='numeric'):
 def numeric(ctx, positions):
     """TEST of the part that is not proved: haversine against the reference."""
     rng, rep = ctx.rng, ctx.rep
-    n = ctx.budget(250, 4000)
+    n = ctx.budget(300, 4000)
     grid = lambda v: round(v, 6)            # decoded coordinates live on the 1e-6 degree grid
     pairs = []
     for _ in range(n):
@@ -546,11 +598,12 @@ def gen_filter(rng, kind, msgs, names, anchors):
     positions = [p for p in (position_of(m) for m in msgs if not isinstance(m, Exception)) if p]
     if kind == 'N':
         k = rng.choice([0, 1, 1, 1, 2, 2, 3])
-        return ('N', [rng.choice(names) for _ in range(k)])
+        common = ['mmsi', 'msg_type', 'repeat', 'lat', 'lon', 'speed', 'course', 'heading', 'radio', 'second']
+        return ('N', [rng.choice(common) if rng.random() < 0.6 else rng.choice(names) for _ in range(k)])
     if kind == 'T':
         present = sorted({int(m.msg_type) for m in msgs if not isinstance(m, Exception)}) or [1]
-        k = rng.choice([0, 1, 2, 3, 6])
-        return ('T', sorted({rng.choice(present) if rng.random() < 0.7 else rng.randrange(0, 30) for _ in range(k)}))
+        k = rng.choice([0, 1, 2, 3, 6, 12, 12])
+        return ('T', sorted({rng.choice(present) if rng.random() < 0.8 else rng.randrange(0, 30) for _ in range(k)}))
     if kind == 'D':
         r = rng.random()
         if positions and r < 0.5:
@@ -568,7 +621,8 @@ def gen_filter(rng, kind, msgs, names, anchors):
         ref = rng.choice(anchors) if r < 0.8 else (rng.uniform(-90, 90), rng.uniform(-180, 180))
         if rng.random() < 0.2:
             ref = (int(ref[0]), int(ref[1]))
-        d = rng.choice([0, 0.0, -1.0, 1e-3, 1, 10.5, 100, 1000.0, 5000, 20015.086796020572, 1e9, 10 ** rng.uniform(-3, 4.5)])
+        d = rng.choice([0, 0.0, -1.0, 1e-3, 1, 10.5, 100, 1000.0, 5000, 5000, 12000.0, 20015.086796020572, 20016, 1e9,
+                        10 ** rng.uniform(-3, 4.5), 10 ** rng.uniform(2, 4.3)])
         return ('D', [num(ref[0]), num(ref[1])], num(d))
     if kind == 'G':
         r = rng.random()
@@ -584,7 +638,7 @@ def gen_filter(rng, kind, msgs, names, anchors):
         if r < 0.8:
             return ('G', num(10.0), num(10.0), num(-10.0), num(-10.0))      # empty box
         a = rng.choice(anchors)
-        w = rng.choice([0.0, 0.01, 1.0, 30.0])
+        w = rng.choice([0.0, 0.01, 1.0, 30.0, 60.0, 100.0])
         return ('G', num(a[0] - w), num(a[1] - w), num(a[0] + w), num(a[1] + w))
     # user predicates
     pk = rng.choice(['c', 'nn', 'has', 'tr', 'tr', 'lt', 'te'])
@@ -596,6 +650,55 @@ def gen_filter(rng, kind, msgs, names, anchors):
     if pk == 'lt':
         return ('A', ['lt', name, num(rng.choice([0, 0.0, 1, 10.5, 100, 1e9, -1.0]))])
     return ('A', [pk, name])
+
+
+def focused_chain(rng, rep, msgs, names, anchors, which):
+    """A chain in which ONE geographic filter sits exactly on (or one float step beside) a boundary of one target message
+    and every other filter lets that message through, so that the verdict on the target is the boundary filter's alone."""
+    from pyais.filter import haversine
+    targets = [m for m in msgs if not isinstance(m, Exception) and position_of(m)]
+    if not targets:
+        return None
+    m = rng.choice(targets)
+    p = position_of(m)
+    which %= 18                                              # 6 of 18 on the distance, 12 on the four grid edges
+    if which >= 12:
+        ref = rng.choice(anchors) if rng.random() < 0.5 else (round(p[0] + rng.uniform(-2, 2), 4), round(p[1] + rng.uniform(-2, 2), 4))
+        if rng.random() < 0.1:
+            ref = p
+        try:
+            h = haversine(ref, p)
+        except Exception:
+            return None
+        j = which % 3
+        rep.count('boundary:distance-' + ['below', 'equal', 'above'][j])
+        main = ('D', [num(ref[0]), num(ref[1])], num(float_neighbours(h)[j]))
+    else:
+        box = [p[0] - rng.uniform(0.5, 5), p[1] - rng.uniform(0.5, 5), p[0] + rng.uniform(0.5, 5), p[1] + rng.uniform(0.5, 5)]
+        e, j = which // 3, which % 3
+        box[e] = float_neighbours(p[e % 2])[j]
+        rep.count('boundary:grid-' + ['lat_min', 'lon_min', 'lat_max', 'lon_max'][e] + '-' + ['below', 'equal', 'above'][j])
+        main = ('G',) + tuple(num(v) for v in box)
+    d = m.asdict()
+    have = [k for k in d if getattr(m, k) is not None]
+    fs = [main]
+    for _ in range(rng.choice([0, 0, 1, 1, 2, 3])):
+        c = rng.randrange(6)
+        if c == 0:
+            fs.append(('T', sorted({int(m.msg_type)} | {rng.randrange(1, 28) for _ in range(rng.randrange(4))})))
+        elif c == 1:
+            fs.append(('N', [rng.choice(have) for _ in range(rng.choice([1, 2]))]))
+        elif c == 2:
+            fs.append(('A', rng.choice([['c', True], ['nn', rng.choice(have)], ['has', rng.choice(list(d))]])))
+        elif c == 3:
+            fs.append(('G', -90, -180, 90, 180) if abs(p[0]) <= 90 and abs(p[1]) <= 180 else ('G', -200, -400, 200, 400))
+        elif c == 4:
+            a = rng.choice(anchors)
+            fs.append(('D', [num(a[0]), num(a[1])], 10 ** 9))
+        else:
+            fs.append(('N', []))
+    rng.shuffle(fs)
+    return fs
 
 
 def pred_can_raise(f):
@@ -626,15 +729,31 @@ def locate_raise(fs, items, item_lines):
     return 'chain', None, None, None
 
 
+def report_raise(rep, pf, items, item_lines, exn_name, replay):
+    """A chain of total filters over decodable messages raised: report it, shrunk to the one filter and the one message
+    that raise when that pair reproduces the exception by itself."""
+    comp, exn, i, f = locate_raise(pf, items, item_lines)
+    if f is not None and exn == exn_name:
+        rep.violation({'entry': 'FilterChain.filter', 'component': comp, 'kind': f'foreign-exception:{exn_name}'},
+                      f'list(FilterChain([{filter_text(f)}]).filter({src_text(item_lines[i])})) raises '
+                      f'{exn_name}; decoded message: {items[i]!r}  (found in {chain_text(pf)} over {len(items)} messages)',
+                      dict(src_json(item_lines[i]), filters=[list(f)]))
+    else:
+        rep.violation({'entry': 'FilterChain.filter', 'component': comp, 'kind': f'foreign-exception:{exn_name}'},
+                      f'{chain_text(pf)} over {len(items)} decodable messages raises {exn_name}',
+                      dict(replay, filters=[list(x) for x in pf]))
+
+
 def check_case(ctx, groups, fs, perms, model=None, want_sample=False, quiet=False):
     """One sentence list x one chain x some orders.  Returns number of violations added."""
     rep = ctx.rep
     model = model or ctx.model
     lines = [ln for g in groups for ln in g['lines']]
-    hexlines = [ln.decode('latin-1') for ln in lines]
+    hexlines = [repr(o) for o in lines] if lines and isinstance(lines[0], Synth) else [ln.decode('latin-1') for ln in lines]
     items = decode_stream(lines)
     # the sentences of each stream element (for locating a raise): groups and items align one to one when nothing was dropped
-    item_lines = [g['lines'] for g in groups] if len(items) == len(groups) else [lines] * len(items)
+    item_lines = ([g['lines'] for g in groups] if len(items) == len(groups)
+                  else [[ln] for ln in lines] if len(items) == len(lines) else [lines] * len(items))
     decodable = [m for m in items if not isinstance(m, Exception)]
     all_decoded = len(decodable) == len(items)
     tokens = []
@@ -653,7 +772,7 @@ def check_case(ctx, groups, fs, perms, model=None, want_sample=False, quiet=Fals
             tokens.append(tok)
     in_keys = [None if isinstance(it, Exception) else content_key(it) for it in items]
     n_before = len(rep.violations)
-    replay = {'lines': hexlines, 'filters': [list(f) for f in fs]}
+    replay = dict(src_json(lines), filters=[list(f) for f in fs])
 
     # distance values, measured on the implementation's haversine
     dist, numeric_failed = {}, False
@@ -673,13 +792,19 @@ def check_case(ctx, groups, fs, perms, model=None, want_sample=False, quiet=Fals
                 numeric_failed = True
             else:
                 dist[key] = frac_token(h)
+    coords_ok = True
     for m in decodable:                                       # the shape every theorem assumes: lat/lon absent, None or numbers
         for a in ('lat', 'lon'):
             v = getattr(m, a, None)
             if not (v is None or isinstance(v, (int, float))):
-                rep.internal(f'decoded message with non-numeric {a}: {m!r}')
+                coords_ok = False
+                if not isinstance(m, Synth):
+                    rep.internal(f'decoded message with non-numeric {a}: {m!r}')
         if not isinstance(m.msg_type, int):
             rep.internal(f'decoded message with non-int msg_type: {m!r}')
+    # the property speaks about decodable messages: the oracle judges only streams of really decoded messages; synthetic
+    # shapes tie the model to the code (a difference there = the model no longer checks) but are no property violation
+    judged = all_decoded and coords_ok and not any(isinstance(m, Synth) for m in decodable)
 
     results = {}
     for perm in perms:
@@ -708,14 +833,10 @@ def check_case(ctx, groups, fs, perms, model=None, want_sample=False, quiet=Fals
             if m_view != impl_view:
                 rep.disagree('H-filter', {'lines': hexlines, 'chain': chain_text(pf)}, m_view, impl_view)
             # (b) oracle: the conjunction filter on the implementation's output
-            if spec is not None and utotal and impl[0] != 'RAISE':
+            if spec is not None and utotal and judged and impl[0] != 'RAISE':
                 want = indices_of(spec, tokens)
                 if impl_view['end'] != 'end':
-                    comp, exn, i, f = locate_raise(pf, items, item_lines)
-                    rep.violation({'entry': 'FilterChain.filter', 'component': comp, 'kind': f'foreign-exception:{impl_view["end"]}'},
-                                  f'{chain_text(pf)} over {len(items)} decodable messages raises {impl_view["end"]}'
-                                  + (f' ({filter_text(f)} on the message of {[x.decode() for x in item_lines[i]]})' if f else ''),
-                                  dict(replay, filters=[list(f) for f in pf]))
+                    report_raise(rep, pf, items, item_lines, impl_view['end'], replay)
                 elif impl_view['out'] != want:
                     extra = sorted(set(impl_view['out']) - set(want))
                     lost = sorted(set(want) - set(impl_view['out']))
@@ -724,15 +845,11 @@ def check_case(ctx, groups, fs, perms, model=None, want_sample=False, quiet=Fals
                     rep.violation({'entry': 'FilterChain.filter', 'component': comp, 'kind': kindv},
                                   f'{chain_text(pf)}: yields input positions {impl_view["out"]}, the messages satisfying every filter '
                                   f'are at {want}', dict(replay, filters=[list(f) for f in pf]))
-        elif all_decoded and not any(pred_can_raise(f) for f in fs) and impl[0] != 'RAISE' and impl_view['end'] != 'end':
+        elif judged and not any(pred_can_raise(f) for f in fs) and impl[0] != 'RAISE' and impl_view['end'] != 'end':
             # no model available (or no distance value): "nothing raises" can still be judged
-            comp, exn, i, f = locate_raise(pf, items, item_lines)
-            rep.violation({'entry': 'FilterChain.filter', 'component': comp, 'kind': f'foreign-exception:{impl_view["end"]}'},
-                          f'{chain_text(pf)} over {len(items)} decodable messages raises {impl_view["end"]}'
-                          + (f' ({filter_text(f)} on the message of {[x.decode() for x in item_lines[i]]})' if f else ''),
-                          dict(replay, filters=[list(f) for f in pf]))
+            report_raise(rep, pf, items, item_lines, impl_view['end'], replay)
     # (c) oracle: the order of the filters does not matter (no user predicate that may raise, everything decodes)
-    if all_decoded and not any(pred_can_raise(f) for f in fs) and len(results) > 1:
+    if judged and not any(pred_can_raise(f) for f in fs) and len(results) > 1:
         base = results.get(perms[0])
         for perm, view in results.items():
             if view != base and 'out' in view and base and 'out' in base and view['end'] == 'end' and base['end'] == 'end':
@@ -787,15 +904,54 @@ def names_universe(pool_msgs):
     return sorted(names) + ['lat', 'lon', 'lat', 'lon', 'speed', 'msg_type', 'foo', 'latitude', 'position']
 
 
+def synthetic(ctx, names, anchors):
+    """Attribute shapes that no decoder output has but the model covers: every combination of lat / lon in {absent, None,
+    0, 0.0, a number, a str}.  Correspondence only (the oracle judges decoded messages only)."""
+    rng, rep = ctx.rng, ctx.rep
+
+    def coord(a):
+        r = rng.random()
+        if r < 0.2:
+            return 'absent'
+        if r < 0.45:
+            return None
+        if r < 0.55:
+            return rng.choice([0, 0.0])
+        if r < 0.62:
+            return rng.choice(['abc', ''])
+        return round(a + rng.uniform(-3, 3), 6)
+
+    for c in range(ctx.budget(70, 800)):
+        objs = []
+        a = rng.choice(anchors)
+        for _ in range(rng.choice([1, 3, 5, 8])):
+            attrs = {}
+            for name, base in (('lon', a[1]), ('lat', a[0])):
+                v = coord(base)
+                if v != 'absent':
+                    attrs[name] = v
+            for name, vals in (('speed', ['absent', None, 0.0, 12.3]), ('shipname', ['absent', None, '', 'X'])):
+                v = rng.choice(vals)
+                if v != 'absent':
+                    attrs[name] = v
+            objs.append(Synth(rng.randrange(1, 28), attrs))
+        k = rng.choice([1, 1, 2, 3])
+        kinds = [rng.choice('DGDGNAT') for _ in range(k)]
+        fs = [gen_filter(rng, kd, objs, ['lat', 'lon', 'speed', 'shipname', 'foo'], anchors) for kd in kinds]
+        rep.count('stream:synthetic-objects')
+        check_case(ctx, [{'lines': objs, 'kind': 'synthetic'}], fs, orders(ctx, k))
+
+
 def run(ctx):
     rng, rep = ctx.rng, ctx.rep
-    pool, anchors = build_pool(ctx, ctx.budget(260, 1500))
+    pool, anchors = build_pool(ctx, ctx.budget(360, 1500))
     pool_msgs = []
     for g in pool:
         pool_msgs.extend(m for m in decode_stream(g['lines']) if not isinstance(m, Exception))
     names = names_universe(pool_msgs)
     bad_groups = malformed_groups(rng)
-    n_cases = ctx.budget(230, 2500)
+    n_cases = ctx.budget(520, 4000)
+    bkinds = itertools.count()
     sample_every = max(1, n_cases // 5)
     for c in range(n_cases):
         malformed = rng.random() < 0.08
@@ -806,12 +962,18 @@ def run(ctx):
         else:
             rep.count('stream:all-decodable')
         msgs = decode_stream([ln for g in groups for ln in g['lines']])
-        k = rng.choice([1, 1, 2, 2, 3, 3, 4, 5])
-        kinds = [rng.choice('NTDGA') for _ in range(k)]
-        if rng.random() < 0.5:                                # geographic filters are where the defects were
-            kinds[rng.randrange(k)] = rng.choice('DG')
-        fs = [gen_filter(rng, kd, msgs, names, anchors) for kd in kinds]
-        check_case(ctx, groups, fs, orders(ctx, k), want_sample=(c % sample_every == 0))
+        fs = focused_chain(rng, rep, msgs, names, anchors, next(bkinds)) if rng.random() < 0.4 else None
+        if fs is None:
+            k = rng.choice([1, 1, 2, 2, 3, 3, 4, 5])
+            kinds = [rng.choice('NTDGA') for _ in range(k)]
+            if rng.random() < 0.5:                            # geographic filters are where the defects were
+                kinds[rng.randrange(k)] = rng.choice('DG')
+            fs = [gen_filter(rng, kd, msgs, names, anchors) for kd in kinds]
+            rep.count('chain:random')
+        else:
+            rep.count('chain:boundary-focused')
+        check_case(ctx, groups, fs, orders(ctx, len(fs)), want_sample=(c % sample_every == 0))
+    synthetic(ctx, names, anchors)
     # FilterChain([]) is rejected
     rep.case(('empty-chain',), kind='len0')
     impl = run_impl([], pool[0]['lines'])
@@ -873,7 +1035,10 @@ def replay(ctx, data):
         except Exception:
             c.model = None
     try:
-        lines = [ln.encode('latin-1') for ln in data['lines']]
+        if 'synthetic' in data:
+            lines = [synth_from_json(j) for j in data['synthetic']]
+        else:
+            lines = [ln.encode('latin-1') for ln in data['lines']]
         fs = [tuple(f) for f in data['filters']]
         perms = [tuple(range(len(fs)))]
         if data.get('perm'):
